@@ -728,28 +728,48 @@ def r5_application(rep, src):
         rep.ok('C18.R5', f.site, 'application', 'for each patch p in order: lines[p[0]:p[1]] = p[2]')
         # the addressed range lies inside the list: a slice assignment beyond the end is silently clamped by Python, so a command whose
         # number was corrupted to point past the last line would be "applied" (as an append, a truncation or not at all) instead of refused
-        def upper_checked(t):
-            # tests that are true exactly when the range end exceeds the length: `last > len(lines)` / `len(lines) < last` / not (... <= len(lines))
-            if isinstance(t, ast.UnaryOp) and isinstance(t.op, ast.Not):
-                t2 = t.operand
-                return isinstance(t2, ast.Compare) and isinstance(t2.ops[-1], ast.LtE) and val(t2.comparators[-2] if len(t2.comparators) > 1 else t2.left) == ('elem', 1) \
-                    and norm(t2.comparators[-1]) == 'len(%s)' % params[0]
-            if isinstance(t, ast.BoolOp) and isinstance(t.op, ast.Or):
-                return any(upper_checked(v) for v in t.values)
-            if isinstance(t, ast.Compare) and len(t.ops) == 1:
-                l_, r_, op_ = t.left, t.comparators[0], t.ops[0]
-                if isinstance(op_, ast.Gt) and val(l_) == ('elem', 1) and norm(r_) == 'len(%s)' % params[0]:
-                    return True
-                if isinstance(op_, ast.Lt) and val(r_) == ('elem', 1) and norm(l_) == 'len(%s)' % params[0]:
-                    return True
-            return False
-        good = [g_ for g_ in guards if upper_checked(g_[0]) and 'ValueError' in g_[1]]
-        if good:
-            rep.ok('C18.R5', f.site, 'the addressed range lies inside the list', '`%s` → ValueError before the slice assignment' % norm(good[0][0]))
+        # the guards in front of the store, interpreted on affine values (first = F, last = L, len(lines) = N with 0 <= F <= L): they raise
+        # ValueError exactly when L > N -- not for fewer ranges (clamping) and not for more (a valid command refused)
+        from .. import affinterp as _AI
+        F_, L_, N_ = Aff.var('first'), Aff.var('last'), Aff.var('len')
+        names = {}
+        for nm_, v_ in env.items():
+            if v_ == ('elem', 0):
+                names[nm_] = F_
+            elif v_ == ('elem', 1):
+                names[nm_] = L_
+        lp_var = lp.target.id if isinstance(lp.target, ast.Name) else None
+
+        def hook(it_, call, env_, facts_):
+            if norm(call.func) == 'len' and len(call.args) == 1 and norm(call.args[0]) == params[0]:
+                return [(N_, facts_)]
+            return None
+        it_ = _AI.Interp(f.site, call_hook=hook)
+        env0 = dict(names)
+        if lp_var:
+            env0[lp_var] = (F_, L_, _AI.Opaque('text'))
+        guard_stmts = [st for st in lp.body if isinstance(st, ast.If) and not st.orelse and len(st.body) == 1 and isinstance(st.body[0], ast.Raise)]
+        binds = [st for st in lp.body if isinstance(st, ast.Assign) and len(st.targets) == 1 and isinstance(st.targets[0], (ast.Name, ast.Tuple, ast.List))]
+        verdict = None
+        try:
+            outs = it_.run(binds + guard_stmts, env0, Facts([F_, L_ - F_, N_]))
+        except AnalysisError as e_:
+            outs = None
+            verdict = 'the range check is outside the affine vocabulary (%s)' % e_
+        if outs is not None:
+            for o in outs:
+                if o.kind == 'raise':
+                    if 'ValueError' not in str(o.value):
+                        verdict = verdict or 'the range check raises %s, not ValueError' % o.value
+                    elif not o.facts.entails(L_ - N_ - 1):
+                        verdict = verdict or 'a command whose range lies inside the list is refused (ValueError under %r): a valid script is rejected' % o.facts
+                elif not o.facts.entails(N_ - L_):
+                    verdict = verdict or ('the slice assignment is reached with the range end possibly beyond len(%s) (%r): a command with an address beyond the last line ("20d", "2,9d", '
+                                          '"91a" on a three-line file) is clamped by the slice and produces a result instead of ValueError' % (params[0], o.facts))
+        if verdict is None:
+            rep.ok('C18.R5', f.site, 'the addressed range lies inside the list', 'ValueError exactly when last > len(%s)' % params[0])
         else:
-            rep.fail('C18.R5', f.site, 'the addressed range lies inside the list', 'the slice assignment is not preceded by a check of the range end against len(%s): a command with an '
-                     'address beyond the last line ("20d", "2,9d", "91a" on a three-line file) is clamped by the slice and produces a result instead of ValueError' % params[0],
-                     where=f.where)
+            rep.fail('C18.R5', f.site, 'the addressed range lies inside the list', verdict, where=f.where)
     else:
         rep.fail('C18.R5', f.site, 'application', why, where=f.where)
     # the regex is chosen by the type of the line (helpers inlined): the value matched against a bytes line is the regex whose
